@@ -8,10 +8,12 @@ import (
 	"os"
 	"path/filepath"
 	"sort"
+	"strings"
 	"sync"
 	"time"
 
 	"github.com/Trendyol/go-dcp/config"
+	"github.com/Trendyol/go-dcp/metadata"
 	"github.com/Trendyol/go-dcp/models"
 
 	"verif/harness/cbsim"
@@ -75,6 +77,14 @@ type SessSpec struct {
 	GroupName  string                `json:"group,omitempty"`
 	Rollbacks  map[int]uint64        `json:"rollbacks,omitempty"` // vb -> R: the first stream request of vb is answered ROLLBACK(R)
 	Failover   map[int][][2]uint64   `json:"failover,omitempty"`  // vb -> failover log (uuid, seq), newest first
+	CBFaults   []CBFault             `json:"cb_faults,omitempty"` // faults on checkpoint xattr writes (couchbase back end)
+}
+
+type CBFault struct {
+	Nth    int    `json:"nth"`  // 1-based index of the checkpoint write request
+	Kind   string `json:"kind"` // status silent delay
+	Status uint16 `json:"status,omitempty"`
+	Ms     int    `json:"ms,omitempty"`
 }
 
 // Seg is one DCP stream of one vBucket as the simulated node saw it.
@@ -123,6 +133,19 @@ type Trace struct {
 	FilePath string
 	BarrierTimeouts int
 	Cfg *config.Dcp
+	Checks []*StoreCheck
+}
+
+// StoreCheck is one barrier comparison point (C05/C13): after a barrier an explicit Commit() is issued and
+// the store is read; then a second Commit() is issued and the number of writes it caused is counted.
+type StoreCheck struct {
+	TCommitCall int64
+	TCommitRet  int64
+	Store       map[int][4]uint64 // vb -> uuid, seq, ss, se (absent = no checkpoint)
+	IdleWrites  int
+	TIdleCall   int64
+	TIdleRet    int64
+	NoIdle      bool
 }
 
 func hash64(parts ...uint64) uint64 {
@@ -334,6 +357,42 @@ func RunSession(spec *SessSpec) *Trace {
 	if mdOpt != nil {
 		opts.Metadata = mdOpt
 	}
+	if spec.Backend == "file" {
+		cfgCopy := *cfg
+		cfgCopy.ApplyDefaults()
+		opts.Metadata = &hx.WrapMetadata{Inner: metadata.NewFSMetadata(&cfgCopy), Log: env.Log}
+	}
+	if len(spec.CBFaults) > 0 {
+		var fmu sync.Mutex
+		nw := 0
+		prev := env.Sim.Hook
+		env.Sim.Hook = func(r *cbsim.Req) *cbsim.Action {
+			if r.Op == cbsim.OpSubdocMutate && strings.Contains(string(r.Key), ":checkpoint:") {
+				fmu.Lock()
+				nw++
+				n := nw
+				fmu.Unlock()
+				for _, f := range spec.CBFaults {
+					if f.Nth == n {
+						env.Log.Add(evlog.Rec{K: "sim.fault", VB: int(r.VB), S: f.Kind, A: uint64(n)})
+						switch f.Kind {
+						case "status":
+							return &cbsim.Action{HasStatus: true, Status: f.Status}
+						case "silent":
+							return &cbsim.Action{NoReply: true}
+						case "delay":
+							return &cbsim.Action{Delay: time.Duration(f.Ms) * time.Millisecond}
+						}
+					}
+				}
+			}
+			if prev != nil {
+				return prev(r)
+			}
+			return nil
+		}
+		cfg.Checkpoint.Timeout = 250 * time.Millisecond
+	}
 	full, err := env.StartFull(cfg, opts)
 	if err != nil {
 		tr.StartErr = err.Error()
@@ -417,6 +476,34 @@ func RunSession(spec *SessSpec) *Trace {
 			// give the save a chance to reach the store call
 			hx.WaitFor(2*time.Second, func() bool { return env.Log.Count("ctl.commit.call") > env.Log.Count("ctl.commit.ret") || true })
 			time.Sleep(2 * time.Millisecond)
+		case "check":
+			s.barrier()
+			ck := &StoreCheck{}
+			ck.TCommitCall = evlog.Tick()
+			full.Commit()
+			ck.TCommitRet = evlog.Tick()
+			ck.Store = s.readStore()
+			w0 := s.writeCount()
+			ck.TIdleCall = evlog.Tick()
+			full.Commit()
+			ck.TIdleRet = evlog.Tick()
+			ck.IdleWrites = s.writeCount() - w0
+			tr.Checks = append(tr.Checks, ck)
+		case "checknocommit":
+			// reference save = the last explicit Commit() that was called; everything settled before that
+			// call must be in the store once it has returned (no further Commit() is issued here)
+			hx.WaitFor(10*time.Second, func() bool { return env.Log.Count("ctl.commit.call") == env.Log.Count("ctl.commit.ret") })
+			ck := &StoreCheck{NoIdle: true}
+			for _, r := range env.Log.Filter(func(r evlog.Rec) bool { return r.K == "ctl.commit.call" }) {
+				ck.TCommitCall = r.T
+			}
+			ck.TCommitRet = evlog.Tick()
+			ck.Store = s.readStore()
+			if ck.TCommitCall != 0 {
+				tr.Checks = append(tr.Checks, ck)
+			}
+		case "waitcommits":
+			hx.WaitFor(10*time.Second, func() bool { return env.Log.Count("ctl.commit.call") == env.Log.Count("ctl.commit.ret") })
 		case "close":
 			tr.CloseOK = full.Close(20 * time.Second)
 			closed = true
@@ -435,7 +522,74 @@ func RunSession(spec *SessSpec) *Trace {
 	tr.Events = cons.Events()
 	tr.Tracks = cons.Tracks()
 	tr.buildSegs()
+	if os.Getenv("VERIF_DUMP") != "" {
+		for _, r := range tr.Log {
+			switch r.K {
+			case "sim.rx.ack", "sim.http":
+				continue
+			}
+			if r.K == "sim.rx" || r.K == "sim.tx" {
+				if r.Op != cbsim.OpDcpStreamReq && r.Op != cbsim.OpSubdocMutate && r.Op != cbsim.OpDcpCloseStream {
+					continue
+				}
+			}
+			fmt.Fprintln(os.Stderr, "LOG", r.String())
+		}
+	}
 	return tr
+}
+
+func (s *session) writeCount() int {
+	return s.env.Log.Count("md.write") + s.env.Log.Count("sim.xattrwrite")
+}
+
+// readStore reads the durable checkpoints of every vBucket from the back end in use.
+func (s *session) readStore() map[int][4]uint64 {
+	out := map[int][4]uint64{}
+	switch s.spec.Backend {
+	case "mem":
+		for vb := 0; vb < s.spec.NumVB; vb++ {
+			if d, ok := s.md.Get(uint16(vb)); ok && d.Checkpoint != nil {
+				t := [4]uint64{d.Checkpoint.VbUUID, d.Checkpoint.SeqNo, 0, 0}
+				if d.Checkpoint.Snapshot != nil {
+					t[2], t[3] = d.Checkpoint.Snapshot.StartSeqNo, d.Checkpoint.Snapshot.EndSeqNo
+				}
+				out[vb] = t
+			}
+		}
+	case "file":
+		b, err := os.ReadFile(s.tr.FilePath)
+		if err == nil {
+			var m map[string]struct {
+				Checkpoint struct {
+					Snapshot struct {
+						StartSeqno uint64 `json:"startSeqno"`
+						EndSeqno   uint64 `json:"endSeqno"`
+					} `json:"snapshot"`
+					Vbuuid uint64 `json:"vbuuid"`
+					Seqno  uint64 `json:"seqno"`
+				} `json:"checkpoint"`
+			}
+			if json.Unmarshal(b, &m) == nil {
+				for k, v := range m {
+					var vb int
+					fmt.Sscan(k, &vb)
+					out[vb] = [4]uint64{v.Checkpoint.Vbuuid, v.Checkpoint.Seqno, v.Checkpoint.Snapshot.StartSeqno, v.Checkpoint.Snapshot.EndSeqno}
+				}
+			}
+		}
+	default:
+		for vb := 0; vb < s.spec.NumVB; vb++ {
+			d := s.env.Sim.GetDoc(fmt.Sprintf("_connector:cbgo:%s:checkpoint:%d", s.tr.Cfg.Dcp.Group.Name, vb))
+			if d == nil || d.Xattrs["cbgo"] == nil {
+				continue
+			}
+			if _, t, ok := decodeXattrWrite(fmt.Sprintf("x:checkpoint:%d\x00cbgo\x00%s", vb, d.Xattrs["cbgo"])); ok {
+				out[vb] = [4]uint64{t.uuid, t.seq, t.ss, t.se}
+			}
+		}
+	}
+	return out
 }
 
 // barrier waits until the last observable item of every vBucket has been observed, then for a short
